@@ -486,6 +486,7 @@ func (n *nodeSim) finale() {
 			n.res.Violate("C15", "truthful", "untrue-report/deleted", "%s was reported deleted but is still in the store", tr.spec.Tag)
 		}
 	}
+	n.sprayFinale()
 	n.res.Nontrivial = len(n.sends) > 0 && (len(n.res.Faults) > 0 || n.res.Probes["sched_choice_among_many"] > 0)
 }
 
